@@ -14,6 +14,7 @@ Three case kinds (all frames come from harness/dfgen.py, all nine stypes):
 from __future__ import annotations
 
 import atexit
+import copy
 import hashlib
 import json
 import os
@@ -39,7 +40,8 @@ RULE = ("frames of 1-10 rows over all nine stypes (dict-valued text_tokenized, b
         "without target, with and without statistics, loaded with device omitted / 'cpu' / torch.device('cpu') "
         "(statistics compared by value AND container/scalar type), reuse cases saving 2-3 frames of different size "
         "onto ONE path, plus frames WITHOUT features that carry only an explicit "
-        "num_rows (and y) and their selections / concatenations; history cases run 2-7 events (materialize with/without path, new Dataset + materialize, a "
+        "num_rows (and y) and their selections / concatenations; history cases run 2-7 events, 30 % of them with every materialize given the statistics of a training set over "
+        "another table (col_stats=), 30 % of the calls with device= (materialize with/without path, new Dataset + materialize, a "
         "new Dataset over ANOTHER table restoring itself from the cache, a derived dataset (slice / shuffle / "
         "index_select) calling materialize(path), the path handed to another table after it was loaded (file "
         "removed and rewritten / overwritten in place), the complete file cut short in place after it was loaded, crash k bytes into a save, convert new rows) over one cache path; trunc cases cut a written cache at "
@@ -175,7 +177,7 @@ def gen_derived(rng, n):
     """a dataset DERIVED from the live one (they count as materialized) calls materialize(path)"""
     op = rng.wpick([(3, {"t": "slice", "k": rng.randint(0, max(0, n - 1))}), (2, {"t": "shuffle"}),
                     (2, {"t": "index", "idx": [rng.randint(0, n - 1) for _ in range(rng.randint(1, 3))]})])
-    return {"e": "derived", "op": op}
+    return {"e": "derived", "op": op, "path": not rng.chance(0.2)}
 
 
 def gen_newdf(rng, n):
@@ -299,9 +301,15 @@ def generate(rng, tier):
         desc = gen_desc(rng)
         evs = gen_events(rng, desc["n"])
         for e in evs:                 # materialize(device=..., path=...) hands the device to torch_frame.load
-            if e["e"] in ("mat", "new") and rng.chance(0.3):
+            if e["e"] in ("mat", "new", "derived") and rng.chance(0.3):
                 e["device"] = rng.pick(["cpu", "torch.device"])
-        cases.append({"kind": "history", "frame": desc, "events": evs})
+            if e["e"] == "rewrite" and rng.chance(0.4):
+                e["supplied"] = True       # materialize(path=p, col_stats=<statistics of the table before>)
+        case = {"kind": "history", "frame": desc, "events": evs}
+        if rng.chance(0.3):               # every materialize of the history is given a training set's statistics
+            case["supplied_first"] = {"rows": [rng.randint(0, desc["n"] - 1) for _ in range(rng.randint(2, 5))],
+                                      "shift": rng.chance(0.7)}
+        cases.append(case)
     for _ in range(n_t):
         desc = gen_desc(rng, big=rng.chance(0.5))
         cases.append({"kind": "trunc", "frame": desc, "ks": "strat" if tier == "quick" else "all",
@@ -686,14 +694,21 @@ def derive(ds, op):
 
 
 class Ref:
-    """The table the cache path currently stands for, with its fresh computation (no path involved)."""
-    def __init__(self, desc, df, refs):
-        self.desc, self.df = desc, df
-        self.fresh = materialized(desc, df=df)
+    """The table the cache path currently stands for -- and, when the history materializes with statistics
+    SUPPLIED by the user (`materialize(col_stats=...)`, e.g. the training set's), those statistics -- with its
+    fresh computation (same keyword arguments, no path involved)."""
+    def __init__(self, desc, df, refs, supplied=None):
+        self.desc, self.df, self.supplied = desc, df, supplied
+        self.fresh = G.build_dataset(desc, df=df)[0]
+        self.fresh.materialize(**self.kw())
         self.obs, self.stats = obs_frame(self.fresh.tensor_frame), stats_json(self.fresh.col_stats)
         self.id = len(refs)
         refs.append({"raw": raw_frame(self.fresh.tensor_frame), "obs": self.obs, "stats": self.stats,
-                     "typed": typed(self.fresh.col_stats)})
+                     "typed": typed(self.fresh.col_stats), "supplied": supplied is not None})
+
+    def kw(self):
+        # a private copy each time: materialize keeps (and _update_col_stats mutates) the dict it is given
+        return {} if self.supplied is None else {"col_stats": copy.deepcopy(self.supplied)}
 
     def new(self):
         return G.build_dataset(self.desc, df=self.df)[0]
@@ -703,7 +718,11 @@ def run_history(case):
     desc = case["frame"]
     obs = {"refs": [], "steps": []}
     try:
-        ref = Ref(desc, G.build_df(desc), obs["refs"])
+        df0 = G.build_df(desc)
+        supplied = None
+        if case.get("supplied_first") is not None:     # statistics of a "training" dataset over another table
+            supplied = copy.deepcopy(materialized(desc, df=other_table(df0, case["supplied_first"])).col_stats)
+        ref = Ref(desc, df0, obs["refs"], supplied)
     except Exception as ex:
         return {"skip": f"preparation raised {C.exc_name(ex)}: {str(ex)[:200]}"}
     path, path2 = fresh_path("h"), fresh_path("h2")
@@ -724,7 +743,8 @@ def run_history(case):
             if ev["e"] in ("mat", "new"):
                 if ev["e"] == "new":
                     cur = ref.new()
-                kw = {} if ev.get("device") is None else {"device": dev_of(ev["device"])}
+                kw = dict(ref.kw(), **({} if ev.get("device") is None else {"device": dev_of(ev["device"])}))
+                st["cur_was_materialized"] = bool(cur.is_materialized)
                 observe(st, cur, lambda: cur.materialize(path=path if ev["path"] else None, **kw))
             elif ev["e"] == "newdf":
                 # only meaningful when there is a cache to restore from (without one the other table
@@ -734,7 +754,7 @@ def run_history(case):
                 else:
                     sha = file_sha(path)
                     cur = G.build_dataset(desc, df=other_table(ref.df, ev))[0]
-                    observe(st, cur, lambda: cur.materialize(path=path))
+                    observe(st, cur, lambda: cur.materialize(path=path, **ref.kw()))
                     if not st["ok"]:
                         cur = ref.new()
                     st["file_unchanged"] = file_sha(path) == sha
@@ -742,7 +762,9 @@ def run_history(case):
                 # the cache path is given to ANOTHER table: the old file is removed (or overwritten by a
                 # complete file written elsewhere) -- from here on the path stands for the other table
                 try:
-                    ref2 = Ref(desc, other_table(ref.df, ev), obs["refs"])
+                    # optionally the other table is materialized with the statistics of the table before it
+                    sup = copy.deepcopy(ref.fresh.col_stats) if ev.get("supplied") else None
+                    ref2 = Ref(desc, other_table(ref.df, ev), obs["refs"], sup)
                 except Exception as ex:
                     st["skipped"] = f"other table does not materialize: {C.exc_name(ex)}"
                     ref2 = None
@@ -751,7 +773,7 @@ def run_history(case):
                     if ev["how"] == "remove":
                         rm(path)
                         cur = ref.new()
-                        observe(st, cur, lambda: cur.materialize(path=path))
+                        observe(st, cur, lambda: cur.materialize(path=path, **ref.kw()))
                     elif ev["how"] == "save":
                         # torch_frame.save of the other table's frame straight onto the existing cache file
                         w = ref.fresh
@@ -759,8 +781,11 @@ def run_history(case):
                         cur = ref.new()
                     else:
                         w = ref.new()
-                        observe(st, w, lambda: w.materialize(path=path2))
-                        if st["ok"]:
+                        observe(st, w, lambda: w.materialize(path=path2, **ref.kw()))
+                        if st["ok"] and not os.path.isfile(path2):
+                            st["writer_wrote_no_file"] = True
+                            rm(path)           # the old file must not pass for the new table's cache
+                        elif st["ok"]:
                             with open(path2, "rb") as f:
                                 data = f.read()
                             with open(path, "wb") as f:           # overwrite in place
@@ -793,7 +818,8 @@ def run_history(case):
                         d = None
                     if d is not None:
                         try:
-                            d.materialize(path=path)
+                            kw = dict(ref.kw(), **({} if ev.get("device") is None else {"device": dev_of(ev["device"])}))
+                            d.materialize(path=path if ev.get("path", True) else None, **kw)
                             st.update(ok=True, own_frame_kept=obs_frame(d.tensor_frame) == pre,
                                       derived_rows=pre["n"])
                         except Exception as ex:
@@ -801,7 +827,7 @@ def run_history(case):
                         st["file_unchanged"] = file_sha(path) == sha
             elif ev["e"] == "crash":
                 try:
-                    cur.materialize(path=path)
+                    cur.materialize(path=path, **ref.kw())
                     st["raised"] = False
                 except Exception as ex:
                     st.update(raised=True, exc=C.exc_name(ex))
@@ -1024,8 +1050,9 @@ def oracle_history_events(case, obs):
                             "fresh computation", expected={"tf": fresh["obs"], "stats": fresh["stats"]},
                             observed={"tf": st["tf"], "stats": st["stats"]}, event=ev)
             if after != "complete":
-                return dict(key="hist:no-file-written", what=f"event {i}: after the rewrite the cache file is {after}",
-                            event=ev)
+                sup = " (materialize(path, col_stats=<supplied statistics>))" if fresh.get("supplied") else ""
+                return dict(key="hist:no-file-written" + (":supplied-stats" if sup else ""),
+                            what=f"event {i}: after the rewrite{sup} the cache file is {after}", event=ev)
             mat = ev["how"] == "remove"
             continue
         if ev["e"] == "derived":
@@ -1089,8 +1116,11 @@ def oracle_history_events(case, obs):
                                 f"complete cache rewrote the file (now {after})", event=ev)
                 continue
             if ev["path"] and before == "absent" and after != "complete":
-                return dict(key="hist:no-file-written", what=f"event {i} {ev}: materialize with a path and no cache "
-                            f"file left the file {after}", expected="complete", observed=after)
+                sup = " and col_stats=<supplied statistics>" if fresh.get("supplied") else ""
+                return dict(key="hist:no-file-written" + (":supplied-stats" if sup else ""),
+                            what=f"event {i} {ev}: materialize with a path{sup} and no cache file left the file "
+                                 f"{after} (it must hold this TensorFrame and these statistics)",
+                            expected="complete", observed=after)
             if not ev["path"] and after != before:
                 return dict(key="hist:file-touched", what=f"event {i}: materialize() without path changed the cache "
                             f"file from {before} to {after}")
@@ -1193,8 +1223,12 @@ def shrink(case):
         if case.get("device") is not None:
             yield dict(case, device=None)
     if case["kind"] == "history":
+        if case.get("supplied_first") is not None:
+            yield {k: v for k, v in case.items() if k != "supplied_first"}
         ev = case["events"]
         for k in range(len(ev)):
+            if ev[k].get("supplied"):
+                yield dict(case, events=ev[:k] + [{x: y for x, y in ev[k].items() if x != "supplied"}] + ev[k + 1:])
             if ev[k].get("device") is not None:
                 yield dict(case, events=ev[:k] + [{x: y for x, y in ev[k].items() if x != "device"}] + ev[k + 1:])
     for d in shrink_frame(case["frame"]):
@@ -1224,7 +1258,8 @@ def nontrivial_sig(case, obs):
     elif case["kind"] == "history":
         if not any(s["before"] != "absent" or s["after"] != "absent" for s in obs["steps"]):
             return None
-        sig += [[(e["e"], e.get("path"), e.get("device"), e.get("how"), s.get("ok", s.get("raised")), "skipped" in s,
+        sig += [case.get("supplied_first") is not None,
+                [(e["e"], e.get("path"), e.get("device"), e.get("how"), e.get("supplied"), s.get("ok", s.get("raised")), "skipped" in s,
                   s["before"], s["after"])
                  for e, s in zip(case["events"], obs["steps"])]]
     else:
@@ -1274,6 +1309,17 @@ def stats(cases, obss):
                 d["events"][e["e"]] = d["events"].get(e["e"], 0) + 1
                 if e.get("device") is not None:
                     d["materialize_with_device"] = d.get("materialize_with_device", 0) + 1
+                if "skipped" not in s and e["e"] in ("mat", "new", "rewrite", "derived", "newdf"):
+                    sup_ = o["refs"][s["ref"]].get("supplied")
+                    state_ = ("derived" if e["e"] == "derived" else
+                              "materialized" if s.get("cur_was_materialized") else "fresh")
+                    k_ = (f"kw:{'path' if e.get('path', True) else 'nopath'}"
+                          f"{'+col_stats' if sup_ else ''}{'+device' if e.get('device') else ''}|{state_}|file-{s['before']}")
+                    d.setdefault("materialize_calls", {})
+                    d["materialize_calls"][k_] = d["materialize_calls"].get(k_, 0) + 1
+                    if sup_ and e.get("path", True) and e["e"] != "derived" and state_ == "fresh" and (
+                            s["before"] == "absent" or e["e"] == "rewrite"):
+                        d["supplied_stats_cache_writes"] = d.get("supplied_stats_cache_writes", 0) + 1
                 d["file_states_seen"][s["before"]] = d["file_states_seen"].get(s["before"], 0) + 1
                 if "skipped" in s:
                     d["events_skipped"] = d.get("events_skipped", 0) + 1
@@ -1321,7 +1367,7 @@ def sanity(cases, obss):
                 special[k] += 1 if o["special"][k] else 0
     d = stats(cases, obss)
     for k in ("reuse_smaller_after_larger", "reuse_larger_after_smaller", "load_device:None", "load_device:cpu",
-              "load_device:torch.device", "materialize_with_device"):
+              "load_device:torch.device", "materialize_with_device", "supplied_stats_cache_writes"):
         if d.get(k, 0) == 0:
             probs.append(f"{k} never drawn")
     for k in ("mat", "new", "newdf", "derived", "rewrite", "cut", "crash", "conv"):
